@@ -605,14 +605,14 @@ func (x *h2conn) do(p *plan, h *hooks, res *result) {
 		}()
 	}
 	var out *h2out
-	waitFor := func(ch chan struct{}) bool { // false: the exchange ended first
+	waitFor := func(ch chan struct{}) bool { // false: the exchange ended first (or the frames were not written within 3 s)
 		select {
 		case <-ch:
 			return true
 		case o := <-done:
 			out = &o
 			return false
-		case <-time.After(reqTimeout):
+		case <-time.After(3 * time.Second): // the gate is held meanwhile: keep it short
 			return false
 		}
 	}
